@@ -109,7 +109,8 @@ def explore(run, scale=1):
     n = N_GEN[run.tier] * scale
     spec = [(n * 6 // 10, None, None), (n * 2 // 10, dict(max_depth=4, max_stmts=6), None),
             (n * 2 // 10, dict(calls=False, structs=False, max_depth=4), None),
-            (n * 2 // 10, None, "vec")]
+            (n * 2 // 10, None, "vec"),
+            (n * 2 // 10, dict(local_aggs_only=True, sibling_reuse=False), None)]          # inside the domain of C14_statement (storage core)
     for rec in progfam.evaluate(run, "C14", spec, want=("wf", "opt", "model", "struct"), ninputs=1):
         if not progfam.account(run, rec): continue
         res = []
@@ -136,6 +137,12 @@ def explore(run, scale=1):
         if w0 and w1 and all(p.endswith(": ok") for p in w0.split(" | ")) and not all(p.endswith(": ok") for p in w1.split(" | ")):
             # the real optimiser turned checked code into unchecked code although the model optimiser provably cannot
             run.mismatch("theorem-instance:C14_opt_preserves_checks", dict(source=rec["src"], seed=rec["seed"]), w0[:200], w1[:200])
+        dom = rec.get("domain", "")
+        if dom:
+            run.count("theorem-domain:C14_statement %s" % ("applies (storage core, calls resolve)" if ("storagecore=yes" in dom and "callsresolve=yes" in dom) else
+                                                          "outside (vectors, global aggregates, ...): per-module checks only"))
+            if "callsresolve=no" in dom:
+                run.mismatch("theorem-hypothesis", dict(source=rec["src"], seed=rec["seed"]), "callsResolve", dom)
         # route 2: structural correspondence model lowering vs implementation (unoptimised)
         if rec.get("accept0") and "model_error" not in rec:
             run.count("struct:compared")
